@@ -461,3 +461,25 @@ unsafe impl lock_api::RawMutex for PLD {
         lock_api::RawMutex::unlock(&self.0)
     }
 }
+
+// ---------------------------------------------- drops during unwinding
+
+struct UnwindMarker;
+
+/// Drops `x` while the thread is unwinding from a panic (`std::thread::panicking()` is true inside
+/// its `Drop`), as happens to a guard or releaser whose holder panics. The panic is raised with
+/// `resume_unwind`, which neither runs the panic hook nor prints. A panic raised by the destructor
+/// itself would be a double panic (abort), as in real code. Not counted for C18 (the unwinder
+/// allocates its exception object).
+pub fn drop_unwinding<T>(x: T) -> Result<(), String> {
+    let r = std::panic::catch_unwind(std::panic::AssertUnwindSafe(move || {
+        let _x = x;
+        std::panic::resume_unwind(Box::new(UnwindMarker));
+    }));
+    let _ = take_alloc_counts();
+    match r {
+        Err(e) if e.is::<UnwindMarker>() => Ok(()),
+        Err(e) => Err(e.downcast_ref::<&str>().map(|s| s.to_string()).or_else(|| e.downcast_ref::<String>().cloned()).unwrap_or_default()),
+        Ok(()) => Ok(()),
+    }
+}
